@@ -7,7 +7,7 @@ use serde_json::json;
 use slotted_egraphs::*;
 use std::collections::BTreeMap;
 use std::io::Write;
-use verif_harness::langs::T;
+use verif_harness::langs::{S1, T};
 use verif_harness::term::*;
 use verif_harness::util::*;
 
@@ -128,5 +128,29 @@ fn main() {
         }
     }
     }
-    println!("{}", json!({"kind":"summary","nodes":2 * input.nodes.len(),"panics":panics}));
+    // payload values (language S1): what to_syntax prints, from_syntax reads back as the same node - also for symbols that
+    // are spelled like odd numerals, signs, keywords of other payload types
+    let mut k = 2 * input.nodes.len();
+    let syms = ["a", "foo", "x1", "007", "+5", "-01", "00", "01x", "0", "7", "-7", "+", "-", "0x", "1_000", "true", "false", "'a'", "1.5", "1e3", "\u{e9}"];
+    let mut pl: Vec<(String, S1)> = Vec::new();
+    for sy in syms {
+        pl.push((format!("Sym:{sy}"), S1::Sym(Symbol::from(sy))));
+        pl.push((format!("Const:{sy}"), S1::Const(Symbol::from(sy))));
+        pl.push((format!("Tag:{sy}"), S1::Tag(Symbol::from(sy), AppliedId::null())));
+    }
+    for v in [0i64, 7, -7, i64::MAX, i64::MIN] { pl.push((format!("I:{v}"), S1::I(v))); }
+    for v in [0u8, 7, 255] { pl.push((format!("U:{v}"), S1::U(v))); }
+    for v in [true, false] { pl.push((format!("Bo:{v}"), S1::Bo(v))); }
+    for v in ['a', '0', '+', '\u{e9}'] { pl.push((format!("Chr:{v}"), S1::Chr(v))); }
+    let npl = pl.len();
+    for (name, n) in pl {
+        // (an unnamed symbol that spells an operator of the language is ambiguous by design and left out)
+        let r = guard(|| S1::from_syntax(&n.to_syntax()).map(|x| x == n).unwrap_or(false));
+        match r {
+            Ok(ok) => writeln!(out, "{}", json!({"i": k, "payload": name, "panic": false, "syntax_ok": ok})).unwrap(),
+            Err(p) => { panics += 1; writeln!(out, "{}", json!({"i": k, "payload": name, "panic": true, "syntax_ok": false, "msg": p.msg, "site": p.site})).unwrap(); }
+        }
+        k += 1;
+    }
+    println!("{}", json!({"kind":"summary","nodes":2 * input.nodes.len(),"payload_values":npl,"panics":panics}));
 }
